@@ -62,7 +62,7 @@ def run(prop, tier, seed, replay=None):
     V.assumptions = [
         "coefficient-field operations (Modular<int32_t>, Modular<Integer>, QField<Rational>) are modelled as exact field arithmetic (Z/p, Q): their own correctness is C03/C10",
         "the threshold used by the model for the SQR_THRESHOLD dispatch is the KARA_THRESHOLD printed by the harness (equal in the source and in both builds); the theorems hold for every threshold >= 1, so a difference would not be observable",
-        "the Karatsuba middle product (karamidStep) and the two unbalanced block loops of the generic midmul are modelled line by line and compared with the implementation at thresholds 50 and 2 (public and range forms), but proved only where the dispatch selects the schoolbook middle product (stdmidmul_exact, midmul_exact_partial); their exactness is otherwise decided per generated case by the reference product",
+        "the fuel of the recursive model functions (mulR, sqrR, midR: |P|+|Q|) only bounds the recursion of the Lean definition; the theorems hold for every fuel, and that the bound is never reached before the threshold dispatch is observed by the comparison with the implementation (thresholds 50 and 2), not proved",
         "interpolation (Interpolation, NewtonInterpGeom over GFqDom<int64_t>(p,1)) and Poly1CRT are not modelled: they are decided per generated case through their defining identities with the verified reference evaluation; the p-adic conversion is modelled on canonical residues (logp of gmp++ and dom_power of givpower.h by value only)",
         "constructors/assignments, the remaining observers, scalar remainder, inverse, shiftin and the givpoly1dense.h wrappers are compared with the reference arithmetic only (no model); the protected range forms are called through a derived class",
         "not instantiable with std::vector storage (compile errors inside the library, hence not exercised; not violations): maxpy(r, scalar, b, c) (calls r.copy), shift (calls R.shiftin); NewtonInterpGeom is only instantiable over fields with generator() (GFqDom)",
